@@ -164,6 +164,18 @@ def shuffle_modes(ctx, n=None):
     for i in range(n):
         w = worlds.gen_world(rng, n_layers=rng.choice([2, 3, 4]), tests_per_layer=(2, 5),
                              kinds=["pass", "pass", "pass", "fail", "error", "skipBody"], p_fault=0.0, p_write=0.0)
+        if i % 3 == 1:
+            # at least two unit tests, and a layer whose dotted name sorts after the unit layer's (the shuffle draws
+            # one stream over the layers in name order)
+            for _ in range(30):
+                unit = [k for k, l in enumerate(w["layers"]) if l["kind"] == "unit"]
+                if unit and sum(1 for t in w["tests"] if t["layer"] == unit[0]) >= 2:
+                    break
+                w = worlds.gen_world(rng, n_layers=rng.choice([2, 3, 4]), tests_per_layer=(2, 5),
+                                     kinds=["pass", "pass", "pass", "fail", "error", "skipBody"], p_fault=0.0, p_write=0.0)
+            non_unit = [l for l in w["layers"] if l["kind"] != "unit"]
+            if non_unit:
+                non_unit[-1]["module"] = "zzl"
         if i % 3 == 0:
             # a layer with a failure *and* an error: the child's report lists both, in that order
             kinds_ = ["fail", "error", "pass", "error", "fail"]
@@ -194,6 +206,8 @@ def shuffle_modes(ctx, n=None):
             "listj": worlds.run_real(w, dict(base, list=True, processes=j), d),
             "seq": worlds.run_real(w, dict(base), d),
             "par": worlds.run_real(w, dict(base, processes=j), d),
+            # the same seed with the unit tests filtered out: the order inside the other layers must not change
+            "listf": worlds.run_real(w, dict(base, list=True, non_unit=True), d),
         }
         shutil.rmtree(d, ignore_errors=True)
         return res
@@ -217,7 +231,12 @@ def shuffle_modes(ctx, n=None):
         lj = {k: v for k, v in cw.listing_groups(w, res["listj"].stdout) if v}
         seq, par = per_layer(res["seq"]), per_layer(res["par"])
         bad = None
-        if l1 != lj:
+        unit_idx = [k for k, l in enumerate(w["layers"]) if l["kind"] == "unit"]
+        lf = {k: v for k, v in cw.listing_groups(w, res["listf"].stdout) if v}
+        l1_non_unit = {k: v for k, v in l1.items() if k not in unit_idx}
+        if lf != l1_non_unit:
+            bad = "--list-tests -f lists %r, without -f the same layers are listed as %r" % (lf, l1_non_unit)
+        elif l1 != lj:
             bad = "--list-tests with -j %d lists %r, without -j %r" % (j, lj, l1)
         elif seq != {k: v for k, v in l1.items() if v}:
             bad = "the sequential run executes %r, --list-tests lists %r" % (seq, l1)
